@@ -197,6 +197,9 @@ def eval_case(case):
         root = os.path.join(base, f'l{li}')
         target = write(root, recs, seed, per_file, lay[2] if len(lay) > 2 else 'dir')
         an = Analysis(target, verbose=False)
+        if case.get('autotruncate'):
+            # the documented option that narrows the fitting window itself
+            an.calculate_thresholds(autotruncate=True)
         th = an.thresholds
         if len(th) != case.get('families', 1):
             fail('one_threshold_row', f"{len(th)} threshold rows for {case.get('families', 1)} "
@@ -255,7 +258,8 @@ def eval_case(case):
                       'ragged-grid' if any(t != [0, 0] for t in (case.get('trims') or [])) else 'common-grid',
                       'C=0' if case['params'][4] == 0 else 'C>0',
                       f"runs-per-point={case.get('runs', 1)}",
-                      'some-failures-outside-codespace' if any(case.get('oocs') or []) else 'all-in-codespace']
+                      'some-failures-outside-codespace' if any(case.get('oocs') or []) else 'all-in-codespace',
+                      'autotruncate' if case.get('autotruncate') else 'default-window']
                      + sorted(
                           {'supplied-as:' + (l[2] if len(l) > 2 else 'dir') for l in case['layouts']}),
            'evals': len(case['layouts'])}
@@ -325,6 +329,7 @@ def cases(draw):
             'trims': trims, 'N': N, 'layouts': layouts, 'shape': shape,
             'runs': draw(st.sampled_from([1, 1, 2, 4])), 'ulp': draw(st.booleans()),
             'families': draw(st.sampled_from([1, 1, 2])),
+            'autotruncate': draw(st.sampled_from([False, False, True])),
             'oocs': ([0.0] * len(dist) if draw(st.booleans()) else
                      [draw(st.sampled_from([0.0, 0.1, 0.2, 0.3, 0.5])) for _ in dist])}
 
